@@ -179,7 +179,10 @@ class C04(Property):
             if nc <= i < nc + len(FAIL_CORPUS):
                 fspec, failing = json.loads(json.dumps(FAIL_CORPUS[i - nc])), True
                 spec = fspec
-            items.append((spec, failing, fspec or spec, [rng.randrange(1 << 30) for _ in range(k)]))
+            seeds = [rng.randrange(1 << 30) for _ in range(k)]
+            if i < len(wfgen.CORPUS):
+                seeds = [2 + j for j in range(k)]      # corpus: fixed schedules, the first one with reverse job completion order
+            items.append((spec, failing, fspec or spec, seeds))
         for i, (spec, failing, run_spec, seeds) in enumerate(items):
             if ctx.out_of_time():
                 ctx.extra["incomplete"] = True
